@@ -151,6 +151,59 @@ def _scratch_constant(A, x):
     return acc * x
 
 
+def _scratch_constant_dot(A, x):
+    # the same, with the scratch array as a constant operand of dot (either side) and outer
+    w = np.zeros(3)
+    acc = x[0] * 0.0
+    for k in range(3):
+        w[:] = 0.5
+        w[k] = k + 2.0
+        acc = acc + A.dot(w, x) * (k + 1.0) + A.dot(x * x, w)
+    M = np.zeros((3, 3))
+    M[0, 1] = 2.0
+    y = A.dot(M, x)
+    M[0, 1] = 0.0
+    M[2, 0] = 3.0
+    return (y + A.dot(x, M)) * acc
+
+
+def _buf_bcast_same_rank(A, x):
+    # right-hand sides of the SAME rank as the selected block, broadcast along a size-1 axis
+    b = A.zeros((2, 3), dtype=x)
+    b[:, :] = x[0:1, :]               # (1,3) into (2,3)
+    c = A.zeros((2, 3), dtype=x)
+    c[:, 0:2] = x[:, 2:3]             # (2,1) into (2,2)
+    c[:, 2:3] = x[:, 0:1] * x[:, 1:2]
+    return b * A.c['m'] + c * c
+
+
+def _buf_reset_to_constant(A, x):
+    # a slot that held a computed value is reset to a constant (python float, numpy scalar,
+    # ndarray) after its value was consumed: the constant carries no adjoint
+    b = A.zeros(4, dtype=x)
+    b[0] = x[0] * x[1]
+    b[1:3] = x[1:3] * x[0]
+    b[3] = x[2]
+    y = b * x[0]
+    b[0] = 3.0
+    b[1:3] = np.array([0.5, -2.0])
+    b[3] = np.float64(1.5)
+    return A.sum(b * b) * x + y[0:3] * y[3]
+
+
+def _inplace_on_element(A, x):
+    # augmented assignment on a single ELEMENT taken from a buffer: for polynomial operands the
+    # element is a 0-d view and the update writes through to the buffer
+    buf = A.zeros(3, dtype=x)
+    buf[...] = x * x
+    v = buf[0]
+    v += x[1]
+    v *= x[2]
+    w = buf[2]
+    w -= 1.5
+    return buf * x
+
+
 def _paused(A, x):
     # recording is suspended with trace_off() and resumed with trace_on(): what ran while
     # recording was on is on the tape, what ran in between is not
@@ -220,6 +273,9 @@ def catalogue():
     add('x**2.5', lambda A, x: x ** 2.5, dom='pos', group='pow')
     add('x**-0.5', lambda A, x: x ** -0.5, dom='pos', group='pow')
     add('x**1', lambda A, x: x ** 1, group='pow')
+    add('x**int64(2)', lambda A, x: x ** np.int64(2), group='pow')
+    add('x**int32(3)*c', lambda A, x: x ** np.int32(3) * A.c['c'], group='pow', consts={'c': (3,)})
+    add('x**6', lambda A, x: x ** 6, group='pow')
     add('x**2.0', lambda A, x: x ** 2.0, dom='nonzero', group='pow')
     add('x**3.0', lambda A, x: x ** 3.0, dom='nonzero', group='pow')
     add('x**-2.0', lambda A, x: x ** -2.0, dom='nonzero', group='pow')
@@ -244,6 +300,14 @@ def catalogue():
     add('x[int64(1)]*x[int64(0)]', lambda A, x: x[np.int64(1)] * x[np.int64(0)] + x[np.int64(-1)], group='index')
     add('x[None]*2', lambda A, x: x[None] * 2.0, group='index')
     add('m[0]*m[1]', lambda A, x: x[0] * x[1], shape=(2, 2), group='index')
+    # advanced indexing (integer lists / arrays, boolean masks): the selection is a copy, its adjoint
+    # is added back into the selected entries (repeated indices accumulate)
+    add('x[[0,2]]*c', lambda A, x: x[[0, 2]] * A.c['c'], group='index', consts={'c': (2,)})
+    add('x[[0,0,1]]*c + x*x', lambda A, x: A.sum(x[[0, 0, 1]] * A.c['c']) + A.sum(x * x), group='index', consts={'c': (3,)})
+    add('x*x then x[array([2,0])]', lambda A, x: A.sum(x * x) * x[np.array([2, 0])], group='index')
+    add('x[mask]*c', lambda A, x: x[np.array([True, False, True])] * A.c['c'], group='index', consts={'c': (2,)})
+    add('m[[1,0],1:]*c', lambda A, x: x[[1, 0], 1:] * A.c['c'], shape=(2, 3), group='index', consts={'c': (2, 2)})
+    add('m[[0,1],[1,0]]', lambda A, x: x[[0, 1], [1, 0]] * x[0, 0], shape=(2, 2), group='index')
     add('m[:,1]*m[0,:]', lambda A, x: x[:, 1] * x[0, :], shape=(2, 2), group='index')
     add('m[0,1]*m[1,0]', lambda A, x: x[0, 1] * x[1, 0], shape=(2, 2), group='index')
     add('buffer', _buf1, group='buffer')
@@ -262,6 +326,10 @@ def catalogue():
     add('augmented assignment through a second name', _inplace_alias, dom='nonzero', group='buffer')
     add('x*x.flat[3]', _flat_read, shape=(2, 2), group='index')
     add('scratch ndarray constant re-used during recording', _scratch_constant, group='buffer')
+    add('scratch ndarray constants of dot re-used during recording', _scratch_constant_dot, group='buffer')
+    add('buffer, same-rank right-hand sides broadcast along a size-1 axis', _buf_bcast_same_rank, shape=(2, 3), group='buffer', consts={'m': (2, 3)})
+    add('buffer, slots reset to constants after use', _buf_reset_to_constant, group='buffer')
+    add('augmented assignment on an element of a buffer', _inplace_on_element, group='buffer', tags=['utpmonly'])
     add('paused recording', _paused, group='buffer')
     add('paused recording twice', _paused_twice, group='buffer')
     add('prod(x)+sum(x*x)', lambda A, x: A.prod(x) + A.sum(x * x), group='reduce')
